@@ -78,6 +78,10 @@ pub const ALPHABETS: &[&str] = &[
     "asáóx", "abšŢx", "bcx\u{d7ce}\u{1d7ce}", "ab\u{10061}\u{10062}\u{61}",
     // digits and the letters they alias under a 6-bit fold (0/p .. 9/y)
     "pqrstuvwxy0123456789",
+    // astral letters next to letters from the top of the BMP (UTF-16 order differs from code-point order)
+    "a\u{ff21}\u{ff22}\u{1d7ce}\u{10400}\u{fb01}",
+    // more distinct symbols than a machine word has bits
+    "abcdefghijklmnopqrstuvwxyz0123456789äöüßéèêçñабвгдеёжзийклмнопрстуфхцчшщъыьэюяαβγδεζηθικλμνξοπρστυφχψωאבגדהוזחטיכלמנסעפצקרשת",
     // characters that are invisible in print but are ordinary characters of a word
     "ab\u{ad}\u{200b}\u{200d}\u{2060}\u{feff}c",
 ];
@@ -143,6 +147,8 @@ pub fn spice(rng: &mut Rng, s: &str) -> String {
 pub const MARKERS: &[(&str, &str)] = &[
     ("[", "]"), ("", ""), ("<b>", "</b>"), ("{{", "}}"), ("\u{e000}", "\u{e001}"), ("\u{e000}\u{e002}", "\u{e001}"), ("😀", "🏁"),
     ("a", "e"), (" ", " "), ("[", ""), ("", "]"), ("-", "-"),
+    // the same characters, split differently between opening and closing marker
+    ("[]", ""), ("", "[]"), ("*", ""), ("", "*"), ("<b", "></b>"), ("<b></b>", ""),
 ];
 
 pub const LIMITS: &[usize] = &[0, 1, 2, 3, 5, 10, 100, 65536];
